@@ -144,6 +144,13 @@ def schedules(chk, gwbin, label, cfg, mcases):
             rd, d, parked = hooks.held(hk, s_, get(A, k), dele(B, k))
             report("get|delete", s_, k, old, new, [("GET overlapping the delete", classify(rd))] if parked else [], parked, {old, "missing"})
             hk.clear()
+        # 2b. a HEAD parked between its stat by name and its open, and right after the open
+        for s_ in ["posix.headobject.statted", "posix.headobject.opened"]:
+            for wname, writer in (("put", put), ("copy", copy), ("multipart", mpu)):
+                k, old, new = fresh_key()
+                rd, w, parked = hooks.held(hk, s_, get(A, k, "HEAD"), writer(B, k, new))
+                report("head|%s-overwrite" % wname, s_, k, old, new, [("HEAD overlapping the overwrite", classify(rd))] if parked else [], parked, {old, new})
+                hk.clear()
         # 3. two writers: the first parked at each step while the second completes
         for s_ in WRITE_SITES:
             k, old, new = fresh_key()
@@ -299,7 +306,7 @@ def stress(chk, gwbin, label, cfg, rounds, procs):
 def run(chk):
     quick = chk.tier == "quick"
     chk.rule = ("cases: (a) hook-driven interleavings on one key, for both temp-file strategies: a writer (PutObject, CopyObject, multipart completion) parked at each "
-                "of its filesystem steps while a GET / HEAD runs, and the read repeated after the acknowledgement; a GET parked at each of its steps while an "
+                "of its filesystem steps while a GET / HEAD runs, and the read repeated after the acknowledgement; a GET (and a HEAD) parked at each of its steps while an "
                 "overwrite (three kinds) or a delete runs; two writers; a delete parked against GET and PUT. Every write has a body, length, ETag, content-type, "
                 "user metadata and tag that identify it, so a response mixing two writes, a prefix, or a key that reads as missing is recognised. (b) concurrent "
                 "rounds of 3-6 clients (put / delete / get / head on one key) through one and through two gateway processes sharing the storage, each history "
